@@ -2,7 +2,7 @@
     list, prod, unit, sumbool mapped to OCaml's; N/positive/nat stay the
     extracted datatypes; no Extract Constant). *)
 From Coq Require Import Extraction ExtrOcamlBasic.
-From Yk Require Import ListAux Word64 PermDefs VersionDefs KeyDefs ValueDefs.
+From Yk Require Import ListAux Word64 PermDefs VersionDefs KeyDefs ValueDefs TreeDefs ScanDefs SysDefs EpochDefs SessionDefs.
 Extraction Language OCaml.
 Extraction "ykmodel.ml"
   N.add N.mul N.div_eucl N.eqb N.ltb N.leb N.of_nat N.to_nat
@@ -14,4 +14,9 @@ Extraction "ykmodel.ml"
   kt_lt kt_gt kt_le kt_ge kt_eq lookup_probe rank_probe route_probe iins_probe bsplit_left
   delete_match canon_lt kt_wf tuple_of_key lex_lt
   create_value_block vb_body_offset vb_get_len vb_gc_size vb_gc_align
-  tag_value_ptr remove_ptr_flag is_value_ptr lv_get_next_layer lv_get_value lv_init value_is_inline.
+  tag_value_ptr remove_ptr_flag is_value_ptr lv_get_next_layer lv_get_value lv_init value_is_inline
+  leaf_ranked bt_leaves bt_id bt_ver layer_get path_of_key bytes_of_slice
+  put get remove scan empty_tree null_tree
+  sys_init exec exec_all trees_get find_storage
+  EpochDefs.step EpochDefs.run EpochDefs.init_st safe_obj has_left
+  sstep srun sinit owns holds.
